@@ -49,17 +49,44 @@ pub struct Case {
     n: usize,
     frags: Vec<u8>,
     lines: Vec<Line>,
+    /// 0: every file in /p/. 1: the last file lives in the parent directory under the *base name of
+    /// file 1* (`/f1.graphql` next to `/p/f1.graphql`): paths that differ only in `.` / `..`
+    /// components then name different files.
+    layout: u8,
 }
 
-fn fname(i: usize, n: usize) -> String {
-    if i >= n { "nope.graphql".into() } else { format!("f{i}.graphql") }
+fn in_parent(c: &Case, i: usize) -> bool {
+    c.layout == 1 && c.n >= 3 && i == c.n - 1
+}
+fn base_name(c: &Case, i: usize) -> String {
+    if i >= c.n {
+        "nope.graphql".into()
+    } else if in_parent(c, i) {
+        "f1.graphql".into()
+    } else {
+        format!("f{i}.graphql")
+    }
+}
+fn fpath(c: &Case, i: usize) -> String {
+    format!("{}{}", if in_parent(c, i) { "/" } else { "/p/" }, base_name(c, i))
+}
+/// the spelled relative path of an import line
+fn spelled(c: &Case, l: &Line) -> String {
+    let (from_parent, to_parent) = (in_parent(c, l.importer as usize), (l.target as usize) < c.n && in_parent(c, l.target as usize));
+    let prefix = match (from_parent, to_parent) {
+        (false, false) => SPELL[l.spell as usize],
+        (false, true) => ["../", "./../", "../p/../"][l.spell as usize],
+        (true, false) => ["./p/", "p/", "./p/../p/"][l.spell as usize],
+        (true, true) => ["./", "", "p/../"][l.spell as usize],
+    };
+    format!("{prefix}{}", base_name(c, l.target as usize))
 }
 
 fn file_text(c: &Case, i: usize) -> String {
     let mut s = String::new();
     for l in c.lines.iter().filter(|l| l.importer as usize == i) {
         let ts: Vec<&str> = TARGETS[l.targets as usize].iter().map(|t| t.unwrap_or("*")).collect();
-        s.push_str(&format!("#import {} from \"{}{}\"\n", ts.join(", "), SPELL[l.spell as usize], fname(l.target as usize, c.n)));
+        s.push_str(&format!("#import {} from \"{}\"\n", ts.join(", "), spelled(c, l)));
     }
     s.push_str(&format!("query Q{i} {{ a }}\n"));
     for f in FRAGSETS[c.frags[i] as usize] {
@@ -176,7 +203,7 @@ pub fn check_case(c: &Case) -> Result<&'static str, (String, String)> {
         let doc = parse_operation_document(t).map_err(|e| ("parse.rejects".to_string(), format!("{t:?}: {}", e.into_message())))?;
         match resolve_operation_extensions(doc) {
             Ok((d, e)) => {
-                store.files.insert(PathBuf::from(format!("/p/f{i}.graphql")), (d, e));
+                store.files.insert(PathBuf::from(fpath(c, i)), (d, e));
             }
             // wildcard/specific mixing for one spelled path is a documented restriction: outside the space
             Err(_) => return Ok("skipped:wildcard-mix"),
@@ -191,7 +218,7 @@ pub fn check_case(c: &Case) -> Result<&'static str, (String, String)> {
     }
     let mut any_err = false;
     for root in 0..c.n {
-        let path = PathBuf::from(format!("/p/f{root}.graphql"));
+        let path = PathBuf::from(fpath(c, root));
         let (doc, ext) = store.files.get(&path).unwrap();
         let got = resolve_operation_imports((&path, doc, ext), &store);
         match (reference(c, root), got) {
@@ -290,13 +317,15 @@ fn shape_tags(c: &Case, root: usize) -> String {
 fn case_json(c: &Case) -> J {
     json!({
         "n": c.n,
+        "layout": c.layout,
         "frags": c.frags,
         "lines": c.lines.iter().map(|l| json!([l.importer, l.target, l.spell, l.targets])).collect::<Vec<_>>(),
-        "files": (0..c.n).map(|i| json!({"path": format!("/p/f{i}.graphql"), "text": file_text(c, i)})).collect::<Vec<_>>(),
+        "files": (0..c.n).map(|i| json!({"path": fpath(c, i), "text": file_text(c, i)})).collect::<Vec<_>>(),
     })
 }
 fn case_from_json(v: &J) -> Case {
     Case {
+        layout: v["layout"].as_u64().unwrap_or(0) as u8,
         n: v["n"].as_u64().unwrap() as usize,
         frags: v["frags"].as_array().unwrap().iter().map(|x| x.as_u64().unwrap() as u8).collect(),
         lines: v["lines"]
@@ -315,6 +344,7 @@ fn case_from_json(v: &J) -> Case {
 
 struct Family {
     name: &'static str,
+    layout: u8,
     n: usize,
     max_lines: usize,
     min_lines: usize,
@@ -336,10 +366,11 @@ fn all_fragsets(n: usize) -> Vec<Vec<u8>> {
 fn families(quick: bool) -> Vec<Family> {
     let all_t = vec![0, 1, 2, 3, 4, 5];
     let mut v = vec![
-        Family { name: "n2-lines<=2-full", n: 2, max_lines: 2, min_lines: 0, spells: vec![0, 1, 2], targets: all_t.clone(), allow_missing: true, fragsets: all_fragsets(2) },
-        Family { name: "n2-lines=3", n: 2, max_lines: 3, min_lines: 3, spells: vec![0, 2], targets: vec![0, 1, 3, 5], allow_missing: true, fragsets: all_fragsets(2) },
-        Family { name: "n3-lines<=2-full", n: 3, max_lines: 2, min_lines: 0, spells: vec![0, 1, 2], targets: all_t.clone(), allow_missing: true, fragsets: all_fragsets(3) },
+        Family { layout: 0, name: "n2-lines<=2-full", n: 2, max_lines: 2, min_lines: 0, spells: vec![0, 1, 2], targets: all_t.clone(), allow_missing: true, fragsets: all_fragsets(2) },
+        Family { layout: 0, name: "n2-lines=3", n: 2, max_lines: 3, min_lines: 3, spells: vec![0, 2], targets: vec![0, 1, 3, 5], allow_missing: true, fragsets: all_fragsets(2) },
+        Family { layout: 0, name: "n3-lines<=2-full", n: 3, max_lines: 2, min_lines: 0, spells: vec![0, 1, 2], targets: all_t.clone(), allow_missing: true, fragsets: all_fragsets(3) },
         Family {
+            layout: 0,
             name: "n3-lines=3-restricted",
             n: 3,
             max_lines: 3,
@@ -350,13 +381,26 @@ fn families(quick: bool) -> Vec<Family> {
             fragsets: if quick { vec![vec![0, 0, 0], vec![0, 1, 2], vec![1, 0, 0]] } else { all_fragsets(3) },
         },
     ];
+    // same base name in two directories: /p/f1.graphql and /f1.graphql
+    v.push(Family { layout: 1, name: "n3-same-name-in-parent-dir-lines<=2", n: 3, max_lines: 2, min_lines: 0, spells: vec![0, 1, 2], targets: vec![0, 1, 2, 3, 5], allow_missing: true, fragsets: all_fragsets(3) });
+    v.push(Family {
+        layout: 1,
+        name: "n3-same-name-in-parent-dir-lines=3",
+        n: 3,
+        max_lines: 3,
+        min_lines: 3,
+        spells: if quick { vec![0] } else { vec![0, 1, 2] },
+        targets: if quick { vec![0, 1, 5] } else { vec![0, 1, 3, 5] },
+        allow_missing: false,
+        fragsets: if quick { vec![vec![0, 0, 0], vec![0, 1, 1], vec![1, 0, 2]] } else { all_fragsets(3) },
+    });
     if !quick {
-        v.push(Family { name: "n2-lines=3-full", n: 2, max_lines: 3, min_lines: 3, spells: vec![0, 1, 2], targets: all_t.clone(), allow_missing: true, fragsets: all_fragsets(2) });
+        v.push(Family { layout: 0, name: "n2-lines=3-full", n: 2, max_lines: 3, min_lines: 3, spells: vec![0, 1, 2], targets: all_t.clone(), allow_missing: true, fragsets: all_fragsets(2) });
     }
     if !quick {
-        v.push(Family { name: "n4-lines<=3", n: 4, max_lines: 3, min_lines: 3, spells: vec![0], targets: vec![0, 1], allow_missing: true, fragsets: all_fragsets(4) });
-        v.push(Family { name: "n4-lines=4-diamond", n: 4, max_lines: 4, min_lines: 4, spells: vec![0], targets: vec![0, 1], allow_missing: false, fragsets: vec![vec![0, 0, 0, 0], vec![0, 1, 1, 0]] });
-        v.push(Family { name: "n3-lines=4", n: 3, max_lines: 4, min_lines: 4, spells: vec![0, 2], targets: vec![0, 1], allow_missing: false, fragsets: vec![vec![0, 0, 0]] });
+        v.push(Family { layout: 0, name: "n4-lines<=3", n: 4, max_lines: 3, min_lines: 3, spells: vec![0], targets: vec![0, 1], allow_missing: true, fragsets: all_fragsets(4) });
+        v.push(Family { layout: 0, name: "n4-lines=4-diamond", n: 4, max_lines: 4, min_lines: 4, spells: vec![0], targets: vec![0, 1], allow_missing: false, fragsets: vec![vec![0, 0, 0, 0], vec![0, 1, 1, 0]] });
+        v.push(Family { layout: 0, name: "n3-lines=4", n: 3, max_lines: 4, min_lines: 4, spells: vec![0, 2], targets: vec![0, 1], allow_missing: false, fragsets: vec![vec![0, 0, 0]] });
     }
     v
 }
@@ -406,7 +450,7 @@ fn inner(args: &Args) -> i32 {
                         tt /= a;
                     }
                     for fs in &f.fragsets {
-                        let c = Case { n: f.n, frags: fs.clone(), lines: lines.clone() };
+                        let c = Case { n: f.n, frags: fs.clone(), lines: lines.clone(), layout: f.layout };
                         cases.fetch_add(1, Ordering::Relaxed);
                         if has_cycle(&c) {
                             cyclic.fetch_add(1, Ordering::Relaxed);
@@ -441,7 +485,7 @@ fn inner(args: &Args) -> i32 {
         );
     }
     let n = cases.load(Ordering::Relaxed);
-    let sample = Case { n: 3, frags: vec![0, 0, 0], lines: vec![Line { importer: 0, target: 1, spell: 0, targets: 1 }, Line { importer: 0, target: 2, spell: 2, targets: 0 }, Line { importer: 1, target: 2, spell: 0, targets: 3 }] };
+    let sample = Case { layout: 0, n: 3, frags: vec![0, 0, 0], lines: vec![Line { importer: 0, target: 1, spell: 0, targets: 1 }, Line { importer: 0, target: 2, spell: 2, targets: 0 }, Line { importer: 1, target: 2, spell: 0, targets: 3 }] };
     let cov = json!({
         "states": n,
         "transitions": n * 3,
@@ -492,7 +536,7 @@ fn announce(c: &Case) {
 }
 
 fn case_json_compact(c: &Case) -> String {
-    json!({"n": c.n, "frags": c.frags, "lines": c.lines.iter().map(|l| json!([l.importer, l.target, l.spell, l.targets])).collect::<Vec<_>>()}).to_string()
+    json!({"n": c.n, "layout": c.layout, "frags": c.frags, "lines": c.lines.iter().map(|l| json!([l.importer, l.target, l.spell, l.targets])).collect::<Vec<_>>()}).to_string()
 }
 
 /// Parent: run the search in a child; a crash there is a verdict about an announced cyclic case.
@@ -559,7 +603,7 @@ pub fn run(args: &Args) -> i32 {
 pub fn replay(case: &J) -> i32 {
     let c = case_from_json(case);
     for i in 0..c.n {
-        println!("--- /p/f{i}.graphql ---\n{}", file_text(&c, i));
+        println!("--- {} ---\n{}", fpath(&c, i), file_text(&c, i));
     }
     match check_case(&c) {
         Ok(o) => {
